@@ -1,8 +1,7 @@
 import importlib.util
 import os
 
-_spec = importlib.util.spec_from_file_location("_gengen", os.path.join(os.path.dirname(__file__), "_gengen.py"))
+_spec = importlib.util.spec_from_file_location("_multi", os.path.join(os.path.dirname(__file__), "_multi.py"))
 _m = importlib.util.module_from_spec(_spec)
 _spec.loader.exec_module(_m)
-pre_build = _m.pre_build
-pre_checks = _m.pre_checks
+pre_build, pre_checks = _m.hooks("_gengen", "_algogen")
